@@ -282,6 +282,9 @@ def replay(cfg, cex):
                 continue         # float values: float32 chosen, reported with exit status 4
             if rc != 0:
                 return True, f"{mod.__name__.rsplit('.', 1)[1]} {argv[2:]} exited with {rc}"
+        rc = run(gsi, ["prog", os.path.join(p2, "info_fullres.json"), p2] + gen_o)
+        if rc == 0:
+            return True, "a second generate-scales-info on the same directory exits with status 0 (the existing info must not be replaced silently)"
         ropts = dict(flat="--flat" in opts, gzip="--no-gzip" not in opts)
         infos, data = [], []
         for p in (p1, p2, p3):
